@@ -156,3 +156,62 @@ func ZZ_C11_stream() {
 		zz.Assert("live_rounds_delivered", len(st.sent) >= live)
 	}
 }
+
+func init() { zz.Register("ZZ_C11_slowConsumerBurst", ZZ_C11_slowConsumerBurst) }
+
+// zzGatedStream blocks inside Send from its k-th send on until the gate is opened (a client that stops
+// reading for a while, then resumes).
+type zzGatedStream struct {
+	zzStream
+	gateFrom int
+	gate     chan struct{}
+}
+
+func (s *zzGatedStream) Send(p *proto.BeaconPacket) error {
+	if len(s.sent)+1 >= s.gateFrom {
+		<-s.gate
+	}
+	return s.zzStream.Send(p)
+}
+
+// ZZ_C11_slowConsumerBurst: a stream in its live phase whose client stops reading while a burst of beacons
+// is stored by a concurrent writer (catch-up after an outage), then reads again. The burst sizes sit around
+// the REAL capacity of the per-stream queue (CallbackWorkerQueue): one beacon in flight + a full queue, and
+// beyond. Whatever the writer experiences meanwhile, the stream delivers every stored round once, in order.
+func ZZ_C11_slowConsumerBurst() {
+	bg := context.Background()
+	base := memdb.NewStore(2000)
+	cbs := NewCallbackStore(zzfake.Logger(), base)
+	mk := func(r uint64) *common.Beacon {
+		return &common.Beacon{Round: r, Signature: []byte{byte(r), byte(r >> 8), 0xee}, PreviousSig: []byte{byte(r - 1)}}
+	}
+	for r := uint64(0); r < 3; r++ {
+		_ = cbs.Put(bg, mk(r))
+	}
+	ctx, cancel := context.WithCancel(bg)
+	st := &zzGatedStream{zzStream: zzStream{ctx: ctx}, gateFrom: 3, gate: make(chan struct{})} // rounds 1,2 from the store, then stalls at the first live send
+	go func() {
+		_ = SyncChain(zzfake.Logger(), cbs, &proto.SyncRequest{FromRound: 1, Metadata: &proto.Metadata{BeaconID: "default"}}, st)
+	}()
+	zz.Quiesce()
+	sizes := []int{1, CallbackWorkerQueue, CallbackWorkerQueue + 1, CallbackWorkerQueue + 2, CallbackWorkerQueue + 5}
+	burst := sizes[zz.Choose("burst", len(sizes))]
+	stored := 0
+	go func() { // the writer (aggregation / sync) keeps storing; it may have to wait for the consumer
+		for i := 0; i < burst; i++ {
+			if cbs.Put(bg, mk(uint64(3+i))) == nil {
+				stored++
+			}
+		}
+	}()
+	zz.Quiesce()
+	close(st.gate) // the client reads again
+	zz.Quiesce()
+	zz.Quiesce()
+	zz.Assert("burst_is_stored", stored == burst)
+	zz.Assert("every_stored_round_delivered_after_the_stall", len(st.sent) == 2+burst)
+	for i, p := range st.sent {
+		zz.Assert("delivered_in_order_without_gap", p.Round == uint64(1+i))
+	}
+	cancel()
+}
